@@ -153,6 +153,7 @@ type workerOut struct {
 	Infra       string             `json:"infra"`
 	ShrinkTries int                `json:"shrinkTries"`
 	Configs     map[string]int     `json:"configs"`
+	Hung        int64              `json:"hung"` // index+1 of a run that exceeded the wall-clock limit (0: none)
 }
 
 type workerViolation struct {
@@ -235,8 +236,18 @@ func runWorker(known []knownFinding) {
 			time.Sleep(2 * time.Second)
 			if cur != last {
 				last, since = cur, time.Now()
-			} else if time.Since(since) > 300*time.Second {
+			} else if time.Since(since) > wallLimit {
+				// hand over what the runs before this one produced (the run
+				// itself is stuck and touches nothing), then give up
 				fmt.Fprintf(os.Stderr, "simcheck worker: run index %d exceeded the wall-clock limit\n", cur)
+				out.Hung = cur + 1
+				for k := range seen {
+					out.Nontrivial = append(out.Nontrivial, k)
+				}
+				if b, err := json.Marshal(out); err == nil {
+					os.Stdout.Write(b)
+					os.Exit(0)
+				}
 				os.Exit(3)
 			}
 		}
@@ -441,6 +452,32 @@ func doReplay(path string) int {
 	return 0
 }
 
+// wallLimit is the wall-clock time a single run may take.  Runs take
+// milliseconds to a few seconds; one that takes this long is spinning in code
+// without scheduling points (a stuck harness would be reported as wedged or
+// deadlocked by the simulator).
+const wallLimit = 300 * time.Second
+
+// hangsInFreshProcess re-executes a plan in a fresh process and reports
+// whether it exceeds the wall-clock limit there too.
+func hangsInFreshProcess(path string) bool {
+	cmd := exec.Command(os.Args[0], "-replay", path, "-json", "-prop", *fProp, "-scratch", scratchDir())
+	cmd.Env = append(os.Environ(), "GOMAXPROCS=1")
+	if err := cmd.Start(); err != nil {
+		return false
+	}
+	done := make(chan struct{})
+	go func() { cmd.Wait(); close(done) }()
+	select {
+	case <-done:
+		return false
+	case <-time.After(wallLimit):
+		cmd.Process.Kill()
+		<-done
+		return true
+	}
+}
+
 func replayInFreshProcess(path string) (*replayOut, error) {
 	cmd := exec.Command(os.Args[0], "-replay", path, "-json", "-prop", *fProp, "-scratch", scratchDir())
 	var stdout, stderr bytes.Buffer
@@ -605,6 +642,7 @@ func parent(known []knownFinding) int {
 	var fatalMu = make(chan struct{}, 1)
 	fatalMu <- struct{}{}
 	var fatals []string // replay files of runs that killed the worker process
+	var hangs []int64   // indices of runs that exceeded the wall-clock limit
 	for w := 0; w < workers; w++ {
 		go func(w int) {
 			index := w
@@ -631,6 +669,15 @@ func parent(known []knownFinding) int {
 				var out workerOut
 				if jerr := json.Unmarshal(stdout.Bytes(), &out); jerr == nil {
 					mergeOut(merged, &out)
+					if out.Hung > 0 {
+						// the run never came back: remember it, go on behind it
+						<-fatalMu
+						hangs = append(hangs, out.Hung-1)
+						fatalMu <- struct{}{}
+						index = int(out.Hung-1) + workers
+						first = false
+						continue
+					}
 					ch <- wres{merged, nil, ""}
 					return
 				}
@@ -673,16 +720,22 @@ func parent(known []knownFinding) int {
 	tot := &workerOut{Clauses: map[string]int{}, Faults: map[string]int{}, Probes: map[string]int{}, Routes: map[string]int{}, Porcupine: map[string]int{},
 		KnownHits: map[string]int{}, Foreign: map[string]int{}, ForeignEx: map[string]string{}, Backends: map[string]int{}, Policies: map[string]int{}, Configs: map[string]int{}}
 	distinct := map[uint64]bool{}
+	infra := 0
 	for w := 0; w < workers; w++ {
 		r := <-ch
+		// trouble of one worker does not silence what the others found: a
+		// confirmed violation is reported (exit 1); without one the check has
+		// no verdict (exit 2)
 		if r.err != nil {
 			fmt.Fprintf(os.Stderr, "simcheck: %v\n%s\n", r.err, r.raw)
-			return 2
+			infra++
+			continue
 		}
 		o := r.out
 		if o.Infra != "" {
 			fmt.Fprintf(os.Stderr, "simcheck: infrastructure problem: %s\n", o.Infra)
-			return 2
+			infra++
+			continue
 		}
 		tot.Runs += o.Runs
 		addMap(tot.Clauses, o.Clauses)
@@ -755,6 +808,32 @@ func parent(known []knownFinding) int {
 		violLines = append(violLines, fmt.Sprintf("VIOLATION property=%s replay=%s", prop, v.File))
 		exitCode = 1
 	}
+	// runs that never came back: a request that keeps the server spinning is
+	// C09's business (confirmed by a second hang in a fresh process); for the
+	// other properties, and unconfirmed, it leaves the check without a verdict
+	sort.Slice(hangs, func(i, j int) bool { return hangs[i] < hangs[j] })
+	for n, idx := range hangs {
+		plan := engine.GenPlan(prop, mixSeed(*fSeed, idx), *fTier, guardsFor(known, prop, idx))
+		sig := "C09/progress: a request keeps the server busy without an answer for more than " + wallLimit.String() + " of wall-clock time"
+		plan.Violation = &engine.ViolationInfo{Property: "C09", Clause: "progress", Signature: sig, Expected: "an answer", Observed: "no answer; the run was abandoned"}
+		os.MkdirAll(*fReplays, 0755)
+		file := filepath.Join(*fReplays, fmt.Sprintf("%s-%d-hang-%d.json", prop, *fSeed, idx))
+		plan.Save(file)
+		switch {
+		case prop != "C09":
+			fmt.Fprintf(os.Stderr, "simcheck: run index %d exceeded the wall-clock limit (plan %s); a hang is C09's clause\n", idx, file)
+			infra++
+		case n > 0 || exitCode != 0:
+			fmt.Fprintf(os.Stderr, "simcheck: run index %d exceeded the wall-clock limit too (plan %s)\n", idx, file)
+		case hangsInFreshProcess(file):
+			fmt.Printf("violation: %s\n  confirmed by a second execution of the plan in a fresh process\n", sig)
+			violLines = append(violLines, fmt.Sprintf("VIOLATION property=%s replay=%s", prop, file))
+			exitCode = 1
+		default:
+			fmt.Fprintf(os.Stderr, "simcheck: run index %d exceeded the wall-clock limit once and completed when repeated (plan %s)\n", idx, file)
+			infra++
+		}
+	}
 	wall := time.Since(start).Seconds()
 	if len(tot.Foreign) > 0 {
 		var fs []string
@@ -773,7 +852,7 @@ func parent(known []knownFinding) int {
 	for _, l := range violLines {
 		fmt.Println(l)
 	}
-	if unconfirmed > 0 && exitCode == 0 {
+	if (unconfirmed > 0 || infra > 0) && exitCode == 0 {
 		return 2
 	}
 	return exitCode
